@@ -400,6 +400,7 @@ func (c *Ctx) instantiatedText(o *Obligation, hints []*Term) string {
 	for _, t := range c.cands {
 		ic.addArith(t)
 	}
+	ic.addArith(c.idxConst(0)) // first element / empty prefix
 	for _, h := range all {
 		ic.process(h)
 	}
